@@ -17,6 +17,8 @@ type ReplayFile struct {
 	Params    map[string]int64 `json:"params"`
 	MapRot    bool             `json:"maprot"`
 	SchedAll  bool             `json:"sched_all"`
+	PreemptBound int           `json:"preempt_bound"`
+	PreemptFuncs []string      `json:"preempt_funcs"`
 	Unwind    int32            `json:"unwind"`
 	MaxSteps  int64            `json:"max_steps"`
 	Cex       *Counterexample  `json:"counterexample"`
@@ -42,20 +44,20 @@ func repoRev() string {
 }
 
 // engineConcrete re-executes a counterexample with all inputs concrete; returns the failing ids.
-func engineConcrete(P *Program, fnName string, params map[string]int64, mapRot, schedAll bool, unwind int32, maxSteps int64, cx *Counterexample) (map[string]*Counterexample, []string) {
+func engineConcrete(P *Program, fnName string, params map[string]int64, mapRot, schedAll bool, preempt int, pfuncs []string, unwind int32, maxSteps int64, cx *Counterexample) (map[string]*Counterexample, []string) {
 	fn := P.findFunc(fnName)
 	if fn == nil {
 		return nil, []string{"function not found"}
 	}
-	job := &Job{P: P, Fn: fn, Name: "replay", Params: params, MapRot: mapRot, SchedAll: schedAll, Unwind: unwind, MaxSteps: maxSteps, Concrete: cx, Known: map[string]bool{}}
+	job := &Job{P: P, Fn: fn, Name: "replay", Params: params, MapRot: mapRot, SchedAll: schedAll, PreemptBound: preempt, PreemptFuncs: pfuncs, Unwind: unwind, MaxSteps: maxSteps, Concrete: cx, Known: map[string]bool{}}
 	job.Explore(1, "", nil, "")
 	return job.Cexs, append(job.EngineErrors, job.Inconclusive...)
 }
 
 func confirmAndWrite(P *Program, job *Job, hs HarnessSpec, cfg map[string]int64, params map[string]int64, cx *Counterexample, prop string, noNative bool) *ReplayFile {
-	rf := &ReplayFile{Property: prop, Harness: job.Name, Fn: hs.Fn, Params: params, MapRot: hs.MapRot, SchedAll: hs.SchedAll,
+	rf := &ReplayFile{Property: prop, Harness: job.Name, Fn: hs.Fn, Params: params, MapRot: hs.MapRot, SchedAll: hs.SchedAll, PreemptBound: job.PreemptBound, PreemptFuncs: hs.PreemptFuncs,
 		Unwind: hs.Unwind, MaxSteps: hs.MaxSteps, Cex: cx, RepoRev: repoRev(), Created: time.Now().UTC().Format(time.RFC3339)}
-	cexs, errs := engineConcrete(P, hs.Fn, params, hs.MapRot, hs.SchedAll, hs.Unwind, hs.MaxSteps, cx)
+	cexs, errs := engineConcrete(P, hs.Fn, params, hs.MapRot, hs.SchedAll, job.PreemptBound, hs.PreemptFuncs, hs.Unwind, hs.MaxSteps, cx)
 	switch {
 	case cexs[cx.Assertion] != nil:
 		rf.EngineRe = "fails (same assertion)"
@@ -112,7 +114,7 @@ func cmdReplay(args []string) int {
 		fmt.Fprintln(os.Stderr, "cannot load:", err)
 		return 2
 	}
-	cexs, errs := engineConcrete(P, rf.Fn, rf.Params, rf.MapRot, rf.SchedAll, rf.Unwind, rf.MaxSteps, rf.Cex)
+	cexs, errs := engineConcrete(P, rf.Fn, rf.Params, rf.MapRot, rf.SchedAll, rf.PreemptBound, rf.PreemptFuncs, rf.Unwind, rf.MaxSteps, rf.Cex)
 	for _, e := range errs {
 		fmt.Fprintln(os.Stderr, "engine:", e)
 	}
